@@ -117,7 +117,7 @@ type Stats struct {
 	Hash            uint64
 }
 
-const maxTasks = 64
+const maxTasks = 512
 const maxLog = 2048
 
 var (
